@@ -727,7 +727,7 @@ func init() {
 					for _, hc := range []int{0, 1, 1, 2, 5, 19, 20, 21, 39, 40, 60, 3600} {
 						jobs = append(jobs, J(sessPkg, "H_C08_params", role, hc))
 					}
-					for kind := 0; kind <= 2; kind++ {
+					for kind := 0; kind <= 3; kind++ {
 						jobs = append(jobs, J(sessPkg, "H_C08_refresh", role, 0, kind))
 					}
 					for st := 0; st <= 1; st++ {
@@ -736,13 +736,18 @@ func init() {
 						}
 					}
 				}
+				// logon, logout, second logon on the same session (both intervals symbolic, and boundary pairs)
+				for _, p := range [][2]int{{0, 0}, {1, 2}, {2, 1}, {30, 30}, {1, 3600}, {3600, 1}} {
+					jobs = append(jobs, J(sessPkg, "H_C08_relogon", 0, p[0], p[1], 0))
+				}
+				jobs = append(jobs, J(sessPkg, "H_C08_relogon", 1, 0, 0, 0), J(sessPkg, "H_C08_relogon", 1, 1, 1, 0))
 				return jobs
 			},
-			Explanation: "Four solver-checked lemmas over the real code. (1) Parameters: after a logon with heartbeat interval N (symbolic 2- and 3-digit, plus concrete boundary values) exactly two timers and two goroutines exist, the heartbeat timer's timeout is N s, polling granularity <= N/10. (2) Refresh: each outbound message (application Send, reply produced on the inbound path) sets the heartbeat timer's lastUpdate to a clock value read during that step. (3) Timer.TakeTimeout run as a goroutine against a symbolic non-decreasing 64-bit clock, harness-driven poll ticks and symbolic decisions to Refresh between ticks: at every tick, returned <=> reading >= latest refresh + timeout, and never sooner than timeout after entry (decided by cvc5 with integer blasting; z3 does not finish these 64-bit signed comparisons). (4) One iteration of the heartbeat goroutine after the timer expires: exactly one Heartbeat without TestReqID, also while waiting for a TestRequest answer; it exits silently when the session is cancelled; it waits for the next period afterwards. Composition into 'gap <= N + N/10 + scheduling slack, no unsolicited Heartbeat before N' is argued in DESIGN.md.",
+			Explanation: "Four solver-checked lemmas over the real code. (1) Parameters: after a logon with heartbeat interval N (symbolic 2- and 3-digit, plus concrete boundary values) exactly two timers and two goroutines exist, the heartbeat timer's timeout is N s, polling granularity <= N/10. (2) Refresh: each outbound message (application Send, reply produced on the inbound path) sets the heartbeat timer's lastUpdate to a clock value read during that step. (3) Timer.TakeTimeout run as a goroutine against a symbolic non-decreasing 64-bit clock, harness-driven poll ticks and symbolic decisions to Refresh between ticks: at every tick, returned <=> reading >= latest refresh + timeout, and never sooner than timeout after entry (decided by cvc5 with integer blasting; z3 does not finish these 64-bit signed comparisons). (4) One iteration of the heartbeat goroutine after the timer expires: exactly one Heartbeat without TestReqID, also while waiting for a TestRequest answer; it exits silently when the session is cancelled; it waits for the next period afterwards. (5) History logon(N1), logout exchange, logon(N2) on one session: afterwards every timer whose expiry still emits a Heartbeat is armed with at least the interval in force, and one armed with exactly it is live. Composition into 'gap <= N + N/10 + scheduling slack, no unsolicited Heartbeat before N' is argued in DESIGN.md.",
 			Rule:        "case = lemma instance x path",
 			Bounds:      map[string]string{"quick": "TakeTimeout: <=3 poll ticks with optional refresh before each, timeout in [10us, 2^40 ns], instants < 2^61 ns; N in 10..999 symbolic and {1,2,5,19,20,21,39,40,60,3600}", "thorough": "<=5 poll ticks"},
 			Assumptions:  conc,
-			Outside:      "real scheduling slack; behaviour of time.Ticker itself (stubbed: delivers ticks when the harness says so); a second logon on the same session object starting a second pair of timers",
+			Outside:      "real scheduling slack; behaviour of time.Ticker itself (stubbed: delivers ticks when the harness says so); more than two logons on one session object",
 			Replay:       "engine",
 		}
 		m["C09"] = &CheckSpec{
@@ -772,9 +777,13 @@ func init() {
 					j.Solver = "cvc5int"
 					jobs = append(jobs, j)
 				}
+				for _, p := range [][2]int{{0, 0}, {1, 2}, {2, 1}, {19, 41}, {30, 30}, {1, 3600}} {
+					jobs = append(jobs, J(sessPkg, "H_C08_relogon", 0, p[0], p[1], 1))
+				}
+				jobs = append(jobs, J(sessPkg, "H_C08_relogon", 1, 0, 0, 1))
 				return jobs
 			},
-			Explanation: "Lemmas over the real code. (1) The silence timer is armed with N + max(1, N/20) seconds (symbolic and boundary N). (2) Every inbound message of every kind, damaged or not, refreshes the silence timer to the clock value of that step and cancels a pending disconnect (state 'waiting for TestRequest answer' is left). (3) Iterations of the silence goroutine with the harness firing the timer: first expiry -> exactly one TestRequest with TestReqID 1 and no disconnect; second expiry without inbound traffic -> disconnect event once, session context cancelled, handler stopped, goroutine exits, no further TestRequest; any inbound message in the second period -> the next expiry sends TestRequest 2 instead of disconnecting; cancelled session -> silent exit. (4) The TakeTimeout lemma of C08 (a timer cannot expire while the last refresh is younger than its timeout, and expires at the first poll after it) instantiated for a re-used timer.",
+			Explanation: "Lemmas over the real code. (1) The silence timer is armed with N + max(1, N/20) seconds (symbolic and boundary N). (2) Every inbound message of every kind, damaged or not, refreshes the silence timer to the clock value of that step and cancels a pending disconnect (state 'waiting for TestRequest answer' is left). (3) Iterations of the silence goroutine with the harness firing the timer: first expiry -> exactly one TestRequest with TestReqID 1 and no disconnect; second expiry without inbound traffic -> disconnect event once, session context cancelled, handler stopped, goroutine exits, no further TestRequest; any inbound message in the second period -> the next expiry sends TestRequest 2 instead of disconnecting; cancelled session -> silent exit. (4) The TakeTimeout lemma of C08 (a timer cannot expire while the last refresh is younger than its timeout, and expires at the first poll after it) instantiated for a re-used timer. (5) History logon(N1), logout exchange, logon(N2) on one session: afterwards every timer whose expiry still emits a TestRequest is armed with at least the period in force, and one armed with exactly it is live.",
 			Rule:        "case = lemma instance x path",
 			Bounds:      map[string]string{"quick": "as C08; inbound kinds: 8 message kinds x 6 damage kinds", "thorough": "same"},
 			Assumptions:  conc,
